@@ -211,6 +211,11 @@ func (b *siteBuilder) page() string {
 func GenSeed(t *rapid.T, idx int, site Site, st Settings) (SeedPlan, map[string]bool) {
 	maxHops := st.MaxHops
 	b := &siteBuilder{t: t, site: site, host: fmt.Sprintf("s%d.example.com", idx), feat: map[string]bool{}}
+	// some sites live on an explicit port: "host" and "host:port" are different texts wherever a per-host table is keyed
+	if pp := rapid.IntRange(0, 4).Draw(t, "port"); pp >= 3 {
+		b.host += []string{":8080", ":8443"}[pp-3]
+		b.feat["host-with-port"] = true
+	}
 	sp := SeedPlan{ID: fmt.Sprintf("seed-%d", idx), Host: b.host, Hops: rapid.IntRange(0, maxHops+1).Draw(t, "hops")}
 	switch b.pick("seedkind", 12) {
 	case 0, 1, 2, 3, 4:
@@ -277,7 +282,17 @@ func GenSeed(t *rapid.T, idx int, site Site, st Settings) (SeedPlan, map[string]
 func GenSettings(t *rapid.T) Settings {
 	s := genSettingsBase(t)
 	if rapid.IntRange(0, 3).Draw(t, "domainscrawl") == 0 {
-		s.DomainsCrawl = []string{"crawl.example.org"}
+		// --domains-crawl takes naive domains, full URLs (exact match, or host and sub-domains when there is nothing after
+		// the host) and regular expressions (matched against the whole link): the last two can tell apart two links of
+		// the same host
+		s.DomainsCrawl = [][]string{
+			{"crawl.example.org"},
+			{"crawl.example.org"},
+			{`/(l|hl)\d*[02468]$`},
+			{"http://dc0.crawl.example.org"},
+			{"http://dc1.crawl.example.org/l3", "http://s1.example.com/l2", "http://s2.example.com/l4", "http://s1.example.com:8080/l2"},
+			{`^http://s\d+\.example\.com(:\d+)?/l\d*[13579]$`, "dc1.crawl.example.org"},
+		}[rapid.IntRange(0, 5).Draw(t, "dckind")]
 	}
 	if rapid.IntRange(0, 3).Draw(t, "ratelimit") == 0 {
 		s.RateLimit = true
